@@ -845,7 +845,7 @@ def preprocess_timed_token_sequences(
                         if token[0] in token_dictionary
                     ],
                     dtype=np.float32,
-                )
+                ).reshape(-1, 2)
             )
     else:
         result_sequences = List()
@@ -862,7 +862,7 @@ def preprocess_timed_token_sequences(
                         for token in sequence
                     ],
                     dtype=np.float32,
-                )
+                ).reshape(-1, 2)
             )
         token_dictionary[masking] = len(token_dictionary)
 
